@@ -629,12 +629,21 @@ def source_idents():
     return {x for x in out if x not in _RUST_KW and not x.isdigit() and x != "_"}
 
 
+def program_idents():
+    """identifiers the generated programs themselves use (helpers of PRELUDE, locals of the case blocks): a caller
+    item of such a name would break the std-only half of the program, which says nothing about the macros"""
+    return set(re.findall(r"\b[A-Za-z_][A-Za-z0-9_]*\b", PRELUDE)) | {
+        "A", "A3", "AW", "C", "R", "S", "items", "pieces", "chars", "lsts", "lst", "seps", "sepc", "hx", "row", "rowl",
+        "format", "String", "Vec", "from_iter", "take", "copied", "iter", "string", "collect", "usize", "str", "main",
+        "std", "core", "konst", "konst_kernel", "r", "print", "println", "map", "s", "t", "is_empty", "concat", "join"}
+
+
 def discovered_idents():
     base_file = os.path.join(os.path.dirname(__file__), "c20_idents.txt")
     base = set(open(base_file).read().split()) if os.path.exists(base_file) else None
     if base is None:
         return []
-    new = sorted(source_idents() - base)
+    new = sorted(source_idents() - base - program_idents())
     return new[:16]
 
 
@@ -693,9 +702,7 @@ def hygiene_cases(tier):
         # that an edit turned into a generic parameter or an item of the expansion is among them whether or not it
         # also occurs elsewhere in those files (added after seeded change C20-r4-1, where the new names `Ret`/`CAP`
         # were already used a few lines above)
-        used_by_program = set(re.findall(r"\b[A-Za-z_][A-Za-z0-9_]*\b", PRELUDE)) | {
-            "A3", "R", "items", "pieces", "format", "String", "Vec", "from_iter", "take", "copied", "iter", "string",
-            "collect", "usize", "str", "main", "std", "core", "konst", "konst_kernel", "r", "print", "println"}
+        used_by_program = program_idents()
         for n in sorted(source_idents()):
             if n in names or n in used_by_program or n in HYG_MANGLED or n.startswith("__"):
                 continue
@@ -984,7 +991,29 @@ def generate(ctx):
         jobs.append((src, os.path.join(d, "h_std.rmeta"), "metadata", extra))
     res = common.compile_many(jobs)
     if alone and res[-1][0] != 0:
-        raise RuntimeError("std-only hygiene program does not compile: " + res[-1][1][-1500:])
+        # a source-derived name (new identifier of the macro sources / thorough sweep) may collide with the program's
+        # own text: judge the std-only half of those cases one by one and drop the ones that do not compile
+        suspects = [i for i in alone if getattr(cases[i], "no_model", False) or cases[i].hyg[4] in HYG_DISCOVERED]
+        sj = []
+        for i in suspects:
+            src = os.path.join(d, f"hs{i}.rs")
+            with open(src, "w") as f:
+                f.write(program(cases, [i], with_impl=lambda i: False))
+            sj.append((src, os.path.join(d, f"hs{i}.rmeta"), "metadata", extra))
+        sres = common.compile_many(sj)
+        dropped = {i for i, (rc, _) in zip(suspects, sres) if rc != 0}
+        keep = [i for i in alone if i not in dropped]
+        src = os.path.join(d, "h_std2.rs")
+        with open(src, "w") as f:
+            f.write(program(cases, keep, with_impl=lambda i: False))
+        rc2, err2 = common.compile_one(src, os.path.join(d, "h_std2.rmeta"), "metadata", extra)
+        if rc2 != 0:
+            raise RuntimeError("std-only hygiene program does not compile: " + err2[-1500:])
+        ctx["extra"]["c20_names_dropped"] = sorted({cases[i].hyg[4] for i in dropped})
+        # the dropped cases are removed from the run altogether
+        drop_set = dropped
+    else:
+        drop_set = set()
     alone_ok = {i: res[njobs + k][0] == 0 for k, i in enumerate(alone)}
     failed_cases = set()
     exes = {gi: jobs[gi][1] for gi in range(len(groups))}
@@ -1030,7 +1059,7 @@ def generate(ctx):
     # the compile verdicts of the hygiene cases
     nrej = 0
     for i, c in enumerate(cases):
-        if not is_hyg(c):
+        if not is_hyg(c) or i in drop_set:
             continue
         ok = alone_ok[i] if i in alone_ok else (i not in failed_cases)
         nrej += 0 if ok else 1
